@@ -33,6 +33,13 @@ fn main() {
                 },
             }
         }
+        "c10worker" => {
+            if args.len() < 3 {
+                usage();
+            }
+            let c = lsmv::corrupt::worker_main(Path::new(&args[2]));
+            std::process::exit(c);
+        }
         "replay" => {
             if args.len() < 4 {
                 usage();
